@@ -148,6 +148,22 @@ pub fn make_error(e: &ErrSpec) -> BoxError {
         ErrSpec::Custom(m) => Box::new(CustomErr(m.clone())),
         ErrSpec::Io(m) => Box::new(std::io::Error::new(std::io::ErrorKind::Other, m.clone())),
         ErrSpec::Nested(m) => Box::new(NestedErr(m.clone(), Box::new(CustomErr("inner cause".into())))),
+        ErrSpec::NestedSig(k, m) => Box::new(NestedErr(m.clone(), Box::new(make_sig_error(*k, "inner signature error")))),
+        ErrSpec::WrappedSig(k, m) => Box::new(SignatureError::InternalServiceError(Box::new(make_sig_error(*k, m)))),
+        ErrSpec::KeyTooLong => match KSecretKey::<4>::from_str("does not fit in four bytes") {
+            Err(e) => Box::new(e),
+            Ok(_) => "harness: KSecretKey::<4> accepted a long secret".into(),
+        },
+        ErrSpec::SigNone => Box::new(SignatureError::SignatureDoesNotMatch(None)),
+        ErrSpec::IoKind(n, m) => Box::new(crate::model::io_error_of(*n, m)),
+    }
+}
+
+/// Display text of the crate's KeyTooLongError (obtained from the operation that returns it).
+pub fn key_too_long_text() -> String {
+    match KSecretKey::<4>::from_str("does not fit in four bytes") {
+        Err(e) => e.to_string(),
+        Ok(_) => String::new(),
     }
 }
 
@@ -317,11 +333,10 @@ fn derive_response(
 ) -> Result<GetSigningKeyResponse, BoxError> {
     // The library's own key derivation is used by the provider (as a user's provider would); C06 checks it
     // against the reference chain separately, and the shadow verifier recomputes the key independently.
-    let k = catch_unwind(|| KSecretKey::from_str(secret));
-    let k = match k {
-        Ok(Ok(k)) => k,
-        Ok(Err(e)) => return Err(Box::new(e)),
-        Err(_) => return Err("harness: KSecretKey::from_str panicked".into()),
+    // (a panic inside the library's key construction propagates: the executor's panic monitor sees it)
+    let k = match KSecretKey::from_str(secret) {
+        Ok(k) => k,
+        Err(e) => return Err(Box::new(e)),
     };
     let ks = k.to_ksigning(date, region, service);
     Ok(GetSigningKeyResponse::builder()
@@ -610,10 +625,12 @@ where
     }
 }
 
-fn run_generic<B, S>(req: Request<B>, cfg: &Cfg, prov: &mut Prov, reqs: &S) -> (Outcome, u32)
+fn run_generic<B, S, P, PF>(req: Request<B>, cfg: &Cfg, prov: &mut P, reqs: &S) -> (Outcome, u32)
 where
     B: IntoRequestBytes,
     S: SignedHeaderRequirements,
+    P: tower::Service<GetSigningKeyRequest, Response = GetSigningKeyResponse, Error = BoxError, Future = PF> + Send,
+    PF: Future<Output = Result<GetSigningKeyResponse, BoxError>> + Send,
 {
     // Half of the validations (a deterministic function of the case) name the option set the way a caller
     // would — through the public constructors — so that those are monitored too.
@@ -643,13 +660,12 @@ where
     (out, polls)
 }
 
-fn run_with_body<S: SignedHeaderRequirements>(
-    req: Request<Bytes>,
-    kind: u8,
-    cfg: &Cfg,
-    prov: &mut Prov,
-    reqs: &S,
-) -> (Outcome, u32) {
+fn run_with_body<S, P, PF>(req: Request<Bytes>, kind: u8, cfg: &Cfg, prov: &mut P, reqs: &S) -> (Outcome, u32)
+where
+    S: SignedHeaderRequirements,
+    P: tower::Service<GetSigningKeyRequest, Response = GetSigningKeyResponse, Error = BoxError, Future = PF> + Send,
+    PF: Future<Output = Result<GetSigningKeyResponse, BoxError>> + Send,
+{
     let (parts, body) = req.into_parts();
     match kind {
         2 if body.is_empty() => run_generic(Request::from_parts(parts, ()), cfg, prov, reqs),
@@ -663,7 +679,11 @@ fn cows(v: &[String]) -> Vec<Cow<'static, str>> {
 }
 
 /// Build the requirement container the way `cfg.reqs.build` says, then run.
-fn run_with_reqs(req: Request<Bytes>, kind: u8, cfg: &Cfg, prov: &mut Prov) -> (Outcome, u32) {
+fn run_with_reqs<P, PF>(req: Request<Bytes>, kind: u8, cfg: &Cfg, prov: &mut P) -> (Outcome, u32)
+where
+    P: tower::Service<GetSigningKeyRequest, Response = GetSigningKeyResponse, Error = BoxError, Future = PF> + Send,
+    PF: Future<Output = Result<GetSigningKeyResponse, BoxError>> + Send,
+{
     let r = &cfg.reqs;
     match r.build {
         3 if r.always.is_empty() && r.if_req.is_empty() && r.prefixes.is_empty() => {
@@ -707,6 +727,69 @@ fn run_with_reqs(req: Request<Bytes>, kind: u8, cfg: &Cfg, prov: &mut Prov) -> (
 pub fn execute(case: &Case) -> Record {
     let mut prov = Prov::new(case.script.clone());
     execute_with(case, &mut prov)
+}
+
+/// Execute one case with the crate's own adapter `service_for_signing_key_fn` around a closure as the key provider (what
+/// most callers use). The closure logs its call and answers as the script says; readiness is always immediate and the
+/// answer is not delayed, so only scripts without readiness behaviour are meaningful here.
+pub fn execute_via_adapter(case: &Case) -> Record {
+    let req = match build_request(&case.wire) {
+        Ok(r) => r,
+        Err(e) => {
+            return Record {
+                outcome: Outcome::NotBuilt(e),
+                events: Vec::new(),
+                polls: 0,
+                submitted: None,
+                view: None,
+            }
+        }
+    };
+    let view = view_of(&req);
+    let submitted = copy_parts(req.method(), req.uri(), req.version(), req.headers());
+    let log: Arc<Mutex<Vec<Ev>>> = Arc::new(Mutex::new(Vec::new()));
+    let log2 = log.clone();
+    let script = case.script.clone();
+    let f = move |req: GetSigningKeyRequest| {
+        log2.lock().unwrap().push(Ev::Call {
+            access_key: req.access_key().to_string(),
+            token: req.session_token().map(|s| s.to_string()),
+            date: req.request_date().format("%Y%m%d").to_string(),
+            region: req.region().to_string(),
+            service: req.service().to_string(),
+        });
+        let result: Result<GetSigningKeyResponse, BoxError> = match &script.answer {
+            Answer::Err(e) => Err(make_error(e)),
+            Answer::Derive {
+                secret,
+            } => derive_response(secret, req.request_date(), req.region(), req.service(), &script),
+            Answer::Fixed {
+                secret,
+                ymd,
+                region,
+                service,
+            } => match NaiveDate::from_ymd_opt(ymd.0, ymd.1, ymd.2) {
+                Some(d) => derive_response(secret, d, region, service, &script),
+                None => Err("harness: bad fixed date".into()),
+            },
+        };
+        log2.lock().unwrap().push(Ev::FutPoll(if result.is_ok() {
+            1
+        } else {
+            2
+        }));
+        std::future::ready(result)
+    };
+    let mut svc = scratchstack_aws_signature::service_for_signing_key_fn(f);
+    let (outcome, polls) = run_with_reqs(req, case.wire.body_kind, &case.cfg, &mut svc);
+    let events = std::mem::take(&mut *log.lock().unwrap());
+    Record {
+        outcome,
+        events,
+        polls,
+        submitted: Some(submitted),
+        view: Some(view),
+    }
 }
 
 /// Execute one case on a caller-owned provider (histories sharing one provider instance).
